@@ -209,8 +209,8 @@ func (c *moCtx) callClass(call *ast.CallExpr) string {
 			if kp == -1 {
 				continue // idempotent
 			}
-			if kp < len(actuals) && c.key != nil && mentions(c.info, actuals[kp], c.key) {
-				continue
+			if kp < len(actuals) && c.mentionsIter(actuals[kp]) {
+				continue // same assumption as for an inline m[k] = v: k distinct per element
 			}
 			if kp < len(actuals) && isConstExpr(c.info, actuals[kp]) {
 				// constant key: last writer wins unless the value is constant as well
@@ -335,6 +335,22 @@ func keyedSetterParam(prog *core.Program, fn *ssa.Function, idx int, depth int) 
 		}
 		return -1
 	}
+	// a key built by string concatenation from a parameter (prefix + name): keyed by that parameter
+	var keyParamOf func(v ssa.Value, d int) int
+	keyParamOf = func(v ssa.Value, d int) int {
+		if k := paramIndex(v); k >= 0 || d > 4 {
+			return k
+		}
+		if b, ok := v.(*ssa.BinOp); ok && b.Op == token.ADD {
+			if bt, ok := b.Type().Underlying().(*types.Basic); ok && bt.Info()&types.IsString != 0 {
+				if k := keyParamOf(b.X, d+1); k >= 0 {
+					return k
+				}
+				return keyParamOf(b.Y, d+1)
+			}
+		}
+		return -1
+	}
 	rootedAtTarget := func(v ssa.Value) bool {
 		for r := range c.rootsOf(v) {
 			if r.kind == rkParam && fn.Params[r.idx] == target {
@@ -363,7 +379,7 @@ func keyedSetterParam(prog *core.Program, fn *ssa.Function, idx int, depth int) 
 							continue // idempotent constant entry
 						}
 					}
-					k := paramIndex(x.Key)
+					k := keyParamOf(x.Key, 0)
 					if k < 0 || (kp >= 0 && kp != k) {
 						return 0, false
 					}
